@@ -245,6 +245,7 @@ class SimpleARTMAP(BaseARTMAP):
         # Store the classes seen during fit
         self.classes_ = unique_labels(y)
         self.labels_ = y
+        self.map = dict()
         # init module A
         self.module_a.W = []
         self.module_a.weight_sample_counter_ = []
